@@ -3,7 +3,7 @@
 P = spec/Layout.tla `Own` (ownership fold over the field sequence).  S = the three bookkeeping loops of
 DataFieldSet::getLength/read/write with hasFullByteOffset, transcribed in the same module.
 1. spec/LayoutMC.tla   : TLC explores S x P to a fix-point => S => P for field sequences of any length
-                         (pinned tree: disagreements are listed; with the proposed fix: none, + abstraction lemma).
+                         (for the pinned hasFullByteOffset and for the always-sharing variant; P admits both).
 2. spec/C10Cases.tla   : TLC enumerates the bounded domain of field sequences with P's ownership map (case file),
                          checking the lemmas about P (disjoint, no gaps, length = span, prefix stability) on the way.
 3. harness/c10_layout.cpp replays every case on real DataField objects built from CSV text and discovers ownership
@@ -18,7 +18,6 @@ import time
 
 from vf import build, recs, tlc
 
-RESTART_KEY = "C10:bit-field-after-same-first-bit-restart"
 
 
 def _mc(ctx, cfg):
@@ -54,8 +53,8 @@ def _run(ctx, tier, exe, wd):
     mc, mc_classes, mc_traces = _mc(ctx, "MC_Layout.cfg")
     mcf, mcf_classes, _ = _mc(ctx, "MC_LayoutFixed.cfg")
     if mcf["violated"]:
-        raise tlc.TlcFailure("S with the proposed hasFullByteOffset fix does not refine P:\n" + mcf["out"][-2000:])
-    ctx.log("S=>P fix-point: pinned tree %d states, %d minimal disagreements %s; with proposed fix %d states, 0" %
+        raise tlc.TlcFailure("the always-sharing variant of hasFullByteOffset does not refine P:\n" + mcf["out"][-2000:])
+    ctx.log("S=>P fix-point: pinned tree %d states, %d disagreements %s; always-sharing variant %d states, 0" %
             (mc["distinct"], sum(mc_classes.values()), mc_classes, mcf["distinct"]))
     if mc_classes:
         ctx.notes.append("design level (pure TLC): S of the pinned tree disagrees with P in %d minimal field successions, classes %s, "
@@ -68,10 +67,16 @@ def _run(ctx, tier, exe, wd):
     casefile = os.path.join(wd, "cases.ndjson")
     emitted = [json.loads(json.loads(line)) for line in cs["out"].splitlines() if line.startswith('"{')]
     emitted.sort(key=lambda c: (len(c["k"]), c["k"], c["p"]))   # TLC's workers print in any order: ids must not depend on it
+    for c in emitted:
+        c["alts"].sort(key=lambda a: (a["len"], a["own"]))
+    nunspec = sum(1 for c in emitted if len(c["alts"]) > 1)
+    altlens = {}
     cases, types = [], []
     with open(casefile, "w") as f:
         for c in emitted:
             c["id"] = len(cases) + 1
+            if len(c["alts"]) > 1:
+                altlens[c["id"]] = [a["len"] for a in c["alts"]]
             cases.append((tuple(c["k"]), tuple(c["p"])))
             types.append(c["t"])
             f.write(json.dumps(c, separators=(",", ":")) + "\n")
@@ -93,7 +98,8 @@ def _run(ctx, tier, exe, wd):
         with open(casefile, "w") as f:
             f.write(json.dumps(c, separators=(",", ":")) + "\n")
         cases, types, ncases = [want], [c["t"]], 1
-    ctx.log("domain: %d field sequences (TLC %.0fs)" % (ncases, cs["wall_s"]))
+    ctx.log("domain: %d field sequences, %d of them with an unspecified placement (two admissible maps) (TLC %.0fs)" %
+            (ncases, nunspec, cs["wall_s"]))
 
     # 3. replay on the real code, in parallel chunks ---------------------------------------------------------
     nproc = int(os.environ.get("VERIF_JOBS", "12"))
@@ -155,9 +161,9 @@ def _run(ctx, tier, exe, wd):
         for idx, sig in bad:
             r = rr[base + idx - 1]
             c = cases[r["id"] - idbase - 1]
-            check, cls, ftype = (sig + ["?", "?", ""])[:3] if isinstance(sig, list) else ("?", "?", "")
+            check, ftype = (sig + ["?", ""])[:2] if isinstance(sig, list) else ("?", "")
             names = ",".join("%s/%s" % tp for tp in zip(types[r["id"] - idbase - 1], c[1]))
-            key = RESTART_KEY if cls == "restart" else "C10:%s%s" % (check, ":" + ftype if ftype else "")
+            key = "C10:%s%s" % (check, ":" + ftype if ftype else "")
             nbad += 1
             ctx.violation(key, "fields %s: oracle Own rejects what the real code did (first failing check: %s)%s" %
                           (names, check, "; " + dbg[r["id"]] if r["id"] in dbg else ""),
@@ -173,6 +179,10 @@ def _run(ctx, tier, exe, wd):
     bylen = {}
     flips = 0
     nontrivial = 0
+    taken = {"shares": 0, "new_byte": 0}
+    for r in rr:
+        if r.get("na", 1) > 1:
+            taken["shares" if sum(r["wl"]) == min(sum(a) for a in altlens[r["id"]]) else "new_byte"] += 1
     for (k, p) in cases:
         bylen[len(k)] = bylen.get(len(k), 0) + 1
         if len(k) > 1:
@@ -186,8 +196,10 @@ def _run(ctx, tier, exe, wd):
                 "per field; 4 data bases x every single-bit flip x up to 7 output formats x every field); distinct = distinct "
                 "(kinds, parts) sequence (checked), non-trivial = more than one field",
         "sequences_by_length": bylen,
-        "s_implies_p_fixpoint": {"pinned_states": mc["distinct"], "pinned_minimal_disagreements": mc_classes,
-                                 "with_fix_states": mcf["distinct"], "with_fix_disagreements": 0},
+        "s_implies_p_fixpoint": {"pinned_states": mc["distinct"], "pinned_disagreements": mc_classes,
+                                 "always_sharing_variant_states": mcf["distinct"], "always_sharing_variant_disagreements": 0},
+        "sequences_with_unspecified_placement": nunspec,
+        "unspecified_placement_taken_by_code": taken,
         "p_lemmas_on_domain": ["ownership pairwise disjoint", "every byte below the length has an owner",
                                "length = bytes spanned", "full-byte fields directly behind their predecessor",
                                "appending a field never moves an earlier one (action property)"],
@@ -203,6 +215,8 @@ def _run(ctx, tier, exe, wd):
          "all sequences of 1..3 fields over both parts and all kinds + 4 fields in the slave part over 12 kinds (without D2C,BCD,TTM)") +
         "; descending/overlapping bit successions are unspecified and not generated; S => P itself holds for any length (fix-point)",
         "dependence of decoding on a bit is observed by single-bit flips on 4 base data (two valid, two seeded random rich in 00/FF)",
+        "the placement of a bit field that starts above the range of a bit field which itself restarted a byte because of an equal "
+        "first bit is unspecified: P admits sharing and a new byte, but getLength/read/write must agree on one of them",
         "getLength(part, max) with a variable-length field is only bounded by P (fixed span <= result <= max), exact for max = fixed span",
         "TLC evaluates the TLA+ definitions correctly; the harness logs what the functions returned",
     ]
